@@ -118,7 +118,7 @@ Fixpoint split_on (c : N) (s : bytes) : list bytes :=
   | [] => [[]]
   | x :: r =>
       match split_on c r with
-      | [] => [[x]] (* unreachable *)
+      | [] => if x =? c then [[]; []] else [[x]] (* unreachable: split_on never returns [] *)
       | h :: t => if x =? c then [] :: h :: t else (x :: h) :: t
       end
   end.
